@@ -43,7 +43,7 @@ SEG_ALPHABETS = [u'abcXYZ019-._~', u'a b+&=?#%;:@,!$\'()*', u'äöüßéñÿ', u
 CTL_ALPHABETS = [u'\x10\x1f\x7fa', u'\x01\x0fa']
 HEADER_NAMES = ['X-Foo', 'X-Bar', 'Accept-Language', 'Cache-Control', 'X-Custom-Header', 'From', 'Pragma', 'Warning']
 DEFAULTED_NAMES = ['User-Agent', 'Accept', 'Accept-Ranges', 'Server', 'Allow']
-SOURCES = ['bytes', 'text', 'list', 'gen', 'textlist', 'bytesio', 'file', 'none']
+SOURCES = ['bytes', 'text', 'list', 'gen', 'iter', 'textlist', 'bytesio', 'file', 'none']
 
 
 def word(rng, alphabets, lo=1, hi=8):
@@ -93,7 +93,7 @@ def gen_case(rng):
 		data = u''.join(rng.choice(u'ab é€\n') for _ in range(n)).encode('utf-8')
 	else:
 		data = bytes(rng.randrange(256) for _ in range(n)) if rng.random() < 0.6 else b'line\r\n' * (n // 6)
-	if source in ('list', 'gen', 'textlist') and data:
+	if source in ('list', 'gen', 'iter', 'textlist') and data:
 		h = rng.randrange(len(data) + 1)
 		if source == 'textlist':
 			while h < len(data) and (data[h] & 0xC0) == 0x80:
